@@ -9,11 +9,12 @@ class Check(EngineCheck):
     module = "LLBuild.Props.C07All"
     theorems = [E + "C07_lasso", E + "C07_empty_report_only_when_root_complete", E + "C07_wait_for_is_real", E + "C07_parked_dep", E + "C07_failure_has_cause", E + "C07_cycle_never_succeeds", E + "Clean_not_cyclic",
                 "LLBuild.Refine.refinement_final", "LLBuild.Refine.EngineImpl_sound_C07_cycle", "LLBuild.Refine.EngineImpl_sound_C05_quiescent",
+                "LLBuild.Refine.build_terminates", "LLBuild.Refine.EngineImpl_terminates", "LLBuild.Refine.EngineImpl_sound_C07_cycle_sized",
                 E + "engine_fingerprint_matches_model"]
     mix = [(0.4, {"cyclic": True}), (0.3, {"cyclic": True, "malformed": True}), (0.15, {"cyclic": True, "cancel": True}), (0.15, {})]
     budget = (300, 3000)
     assumptions = EngineCheck.assumptions + [
-        "'never stalls' is decided on the real engine (watchdog); 'a real cycle is always reported' is proved in the form C07_cycle_never_succeeds (no accepted history ends a build of a key in a cyclic set successfully) for cycles through value-carrying requests; cycles through must-follow / single-use edges and the absence of stalls are decided by the python reference evaluation of the demanded graph on the real engine's traces"]
+        "'never stalls': for the transliterated engine it is the theorem EngineImpl_terminates (no build emits the stall or fuel marker, under the computable size condition histSized); on the real engine it is additionally watched by the harness's watchdog; 'a real cycle is always reported' is proved in the form C07_cycle_never_succeeds (no accepted history ends a build of a key in a cyclic set successfully) for cycles through value-carrying requests; cycles through must-follow / single-use edges and the absence of stalls are decided by the python reference evaluation of the demanded graph on the real engine's traces"]
 
 
 CHECK = Check()
